@@ -154,19 +154,65 @@ pub fn cmd_run(args: &[String]) -> i32 {
         std::fs::File::create(&args[5]).unwrap()
     );
     let scratch = scratch_dir();
+    limit_process();
+    let current = format!("{}.current", args[5]);
     for index in from..to {
         let seed = run_seed(base, property, tier, index);
+        // Should the process die in this run, the driver finds out which
+        // run it was.
+        let _ = std::fs::write(&current, format!("{index} {seed}"));
+        RUN_STARTED.store(now_secs(), std::sync::atomic::Ordering::SeqCst);
         let res = run_one(property, tier, seed, &BTreeSet::new(), &scratch);
+        RUN_STARTED.store(0, std::sync::atomic::Ordering::SeqCst);
         let bad = res.violations.iter().any(|v| {
             v.property == property || v.property == "harness"
         });
         let full = bad || index < 2
             || std::env::var_os("VERIF_FULL_LOG").is_some();
         writeln!(out, "{}", result_json(property, index, &res, full)).unwrap();
+        out.flush().unwrap();
     }
     out.flush().unwrap();
+    let _ = std::fs::remove_file(&current);
     let _ = std::fs::remove_dir_all(&scratch);
     0
+}
+
+/// Start of the run in progress (seconds, real clock), 0 if none.
+static RUN_STARTED: std::sync::atomic::AtomicU64 =
+    std::sync::atomic::AtomicU64::new(0);
+
+fn now_secs() -> u64 {
+    // The real monotonic clock: the simulated clock must not be involved.
+    let mut ts = libc::timespec { tv_sec: 0, tv_nsec: 0 };
+    unsafe { libc::syscall(libc::SYS_clock_gettime, libc::CLOCK_MONOTONIC, &mut ts); }
+    ts.tv_sec as u64
+}
+
+/// Guards against a simulated system that no longer terminates or eats
+/// memory without bound: the address space of this process is limited and a
+/// watchdog ends the process when a single run takes too long. The driver
+/// turns either into a report for the run in progress.
+pub fn limit_process() {
+    let gib: u64 = std::env::var("VERIF_AS_LIMIT_GIB").ok()
+        .and_then(|v| v.parse().ok()).unwrap_or(4);
+    if gib > 0 {
+        let limit = gib << 30;
+        let rlim = libc::rlimit { rlim_cur: limit, rlim_max: limit };
+        unsafe { libc::setrlimit(libc::RLIMIT_AS, &rlim); }
+    }
+    let timeout: u64 = std::env::var("VERIF_RUN_TIMEOUT").ok()
+        .and_then(|v| v.parse().ok()).unwrap_or(1800);
+    std::thread::spawn(move || {
+        loop {
+            std::thread::sleep(std::time::Duration::from_secs(1));
+            let started = RUN_STARTED.load(std::sync::atomic::Ordering::SeqCst);
+            if started != 0 && now_secs().saturating_sub(started) > timeout {
+                eprintln!("rtsim: run exceeded {timeout}s of real time");
+                unsafe { libc::_exit(3) }
+            }
+        }
+    });
 }
 
 fn violation_class(res: &RunResult, property: &str) -> Option<String> {
@@ -182,6 +228,7 @@ pub fn cmd_shrink(args: &[String]) -> i32 {
     let tier = tier_from(&args[1]);
     let seed: u64 = args[2].parse().unwrap();
     let scratch = scratch_dir();
+    limit_process();
     let full = run_one(property, tier, seed, &BTreeSet::new(), &scratch);
     let Some(class) = violation_class(&full, property) else {
         eprintln!("shrink: seed {seed} does not violate {property}");
@@ -255,7 +302,10 @@ pub fn cmd_replay(args: &[String]) -> i32 {
         )).collect()
     }).unwrap_or_default();
     let scratch = scratch_dir();
+    limit_process();
+    RUN_STARTED.store(now_secs(), std::sync::atomic::Ordering::SeqCst);
     let res = run_one(&property, tier, seed, &mask, &scratch);
+    RUN_STARTED.store(0, std::sync::atomic::Ordering::SeqCst);
     let _ = std::fs::remove_dir_all(&scratch);
     for line in &res.log {
         println!("{line}");
